@@ -435,5 +435,62 @@ def integer_inputs(rec):
                      'fractional covariates; distinct by model', exhaustive=True)
 
 
+def point_mass(rec):
+    """bounded (IEEE values; real arithmetic cannot distinguish 'equal' from 'nearly equal'): the documented density of pooled and
+    heterogeneous dimensions is a point mass -- individual parameters that differ from the population-level value by any amount, however
+    small, score -inf (alone and as part of a composed model), and exactly equal ones score 0"""
+    import chi as real
+    cases = []
+    for d in (1, 2):
+        for rel in (0.0, 1e-15, 1e-12, 1e-9, 1e-7, 1e-4):
+            for base in (3.0e-9, 0.7, 250.0):
+                for kind in ('Pooled', 'Heterogeneous', 'Composed[Gaussian, Pooled]', 'Composed[Heterogeneous, LogNormal]'):
+                    cases.append((kind, d, base, rel))
+
+    def one(case):
+        kind, d, base, rel = case
+        n_ids = 3
+        theta_p = base * (1.0 + 0.1 * np.arange(d))
+        if 'Pooled' in kind:
+            special = real.PooledModel(n_dim=d)
+            th_special = theta_p
+            psi_special = np.tile(theta_p, (n_ids, 1))
+        else:
+            special = real.HeterogeneousModel(n_dim=d, n_ids=n_ids)
+            psi_special = base * (1.0 + 0.1 * np.arange(n_ids * d)).reshape(n_ids, d)
+            th_special = psi_special.flatten()
+        # one individual parameter is off by the relative amount rel (the smallest representable step if rel is below the resolution)
+        psi_special = psi_special.copy()
+        off = psi_special[1, d - 1] * (1.0 + rel)
+        if rel > 0 and off == psi_special[1, d - 1]:
+            off = np.nextafter(psi_special[1, d - 1], np.inf)
+        psi_special[1, d - 1] = off
+        want_inf = rel > 0
+        if kind.startswith('Composed'):
+            other = real.GaussianModel() if 'Gaussian' in kind else real.LogNormalModel()
+            first = kind.startswith('Composed[Gaussian')
+            m = real.ComposedPopulationModel([other, special] if first else [special, other])
+            m.set_n_ids(n_ids)
+            th = np.concatenate([[0.8, 0.6], th_special]) if first else np.concatenate([th_special, [0.8, 0.6]])
+            col = np.array([[0.9], [1.1], [1.3]])
+            psi = np.hstack([col, psi_special]) if first else np.hstack([psi_special, col])
+        else:
+            m, th, psi = special, th_special, psi_special
+            m.set_n_ids(n_ids)
+        ll = m.compute_log_likelihood(th, psi)
+        sc = m.compute_sensitivities(th, psi)[0]
+        sr = m.compute_sensitivities(th, psi, reduce=True)[0]
+        for nm, v in (('compute_log_likelihood', ll), ('compute_sensitivities', sc), ('compute_sensitivities(reduce=True)', sr)):
+            if want_inf and not np.isneginf(v):
+                return '%s(n_dim=%d): an individual parameter differs from the population-level value %r by the relative amount %.1e; %s returns %r, the point mass gives -inf' % (kind, d, base, rel, nm, float(v))
+            if not want_inf and not np.isfinite(v):
+                return '%s(n_dim=%d): every individual carries exactly the population-level value; %s returns %r' % (kind, d, nm, float(v))
+        return None
+    rec.native_check('point-mass.exact', ['chi._population_models.PooledModel.compute_log_likelihood', 'chi._population_models.PooledModel.compute_sensitivities',
+                                          'chi._population_models.HeterogeneousModel.compute_log_likelihood', 'chi._population_models.HeterogeneousModel.compute_sensitivities',
+                                          'chi._population_models.ComposedPopulationModel.compute_log_likelihood'], cases, one,
+                     'pooled / heterogeneous models alone and inside compositions, n_dim 1-2, population-level values of magnitude 3e-9 / 0.7 / 250, one individual parameter off by a relative 0 / 1e-15 (one ulp) / 1e-12 / 1e-9 / 1e-7 / 1e-4', exhaustive=True)
+
+
 from contracts import c05b
-TASKS = [(k, (lambda rec, k=k: build(rec, k))) for k in KINDS] + [('invariant', invariant), ('integer-inputs', integer_inputs)] + c05b.tasks()
+TASKS = [('point-mass', point_mass)] + [(k, (lambda rec, k=k: build(rec, k))) for k in KINDS] + [('invariant', invariant), ('integer-inputs', integer_inputs)] + c05b.tasks()
